@@ -68,12 +68,15 @@ CLAIMS = {
     "C14": {
         "text": "Machine-checked Lean theorems: the wire layout of the model equals the layout extracted from the Rust source on every run; "
                 "binary round trip for every representable definition (all fields, bit-exact scores); same bytes on re-serialization; "
-                "magic/version checks; exporting a canonically ordered definition returns it for every hash iteration order. Model tied to "
+                "magic/version checks; exporting a canonically ordered definition returns it for every hash iteration order; every export "
+                "returns the specials in the listed order with the same configuration (export_keeps_specials; the code had to be repaired "
+                "for this, F25 4b5b4e8). Model tied to "
                 "the real serializer and exporter byte for byte on shipped and generated definitions covering every variant.",
         "design_ref": "DESIGN.md §6 C14",
         "note": "Trusted: Lean kernel + 3 standard axioms; translator (tools/extract.py) for the layout; postcard wire details (varint limits, "
                 "tags, char-as-string) are modelled from reading postcard 1.1.3 and tied by correspondence; behaviour equality of rebuilt "
-                "tokenizers is measured (IMPLEQ), the congruence argument is not a separate theorem.",
+                "tokenizers is measured (IMPLEQ rebuilt-behaves-alike on every generated definition, specials listed in and out of Ord "
+                "order), the congruence argument is not a separate theorem.",
         "technique": "Lean 4 proof over executable model + translator-regenerated layout + differential correspondence",
     },
     "C18": {
